@@ -109,6 +109,16 @@ def run(chk):
             ("pcap_write", "ENOSPC-stdout-big", "pcap_write(ps, bigp)", {"stdout": "/dev/full", "pre": "let ps = pcap_stream(stdout); let bigp = pcap_read_next(pcap_open(%s));" % lit(os.path.join(work, "bigrec.pcap"))}),
             ("flush", "ENOSPC-stdout-after-pcap_stream", "flush(stdout)", {"stdout": "/dev/full", "pre": "let ps = pcap_stream(stdout);"}),
             ("pcap_read_next", "oversize-on-stdin", "pcap_read_next(pcap_stream(stdin))", {"stdin": pkt.pcap_header(snaplen=10) + pkt.pcap_record(1, 2, b"z" * 60)}),
+            ("pcap_read_next", "oversize-and-short-on-stdin", "pcap_read_next(pcap_stream(stdin))", {"stdin": pkt.pcap_header(snaplen=10) + pkt.pcap_record(1, 2, b"z" * 5, 60, 60)}),
+            ("pcap_read_all", "oversize-and-short-on-stdin", "pcap_read_all(pcap_stream(stdin))", {"stdin": pkt.pcap_header(snaplen=10) + pkt.pcap_record(1, 2, b"z" * 5, 60, 60)}),
+            ("pcap_read_all", "oversize-on-stdin", "pcap_read_all(pcap_stream(stdin))", {"stdin": pkt.pcap_header(snaplen=10) + pkt.pcap_record(1, 2, b"z" * 60)}),
+            # stdout is line buffered: a line break pushes what is buffered to the device
+            ("write", "ENOSPC-stdout-newline-byte", "write(stdout, byte(10))", {"stdout": "/dev/full"}),
+            ("write", "ENOSPC-stdout-newline-string", "write(stdout, nl)", {"stdout": "/dev/full", "pre": "let nl = decode_utf8([byte(120), byte(10)]);"}),
+            ("write", "ENOSPC-stdout-newline-bytes", "write(stdout, [byte(120), byte(10)])", {"stdout": "/dev/full"}),
+            ("write", "ENOSPC-stdout-byte-fills-buffer", "wr_fill()", {"stdout": "/dev/full", "pre": "fn wr_fill() { let i = 0; let r = null; while i < 3000 { r = write(stdout, byte(65)); if is_error(r) { return r; } i = i + 1; } return r; }"}),
+            ("write", "EPIPE-stdout-newline-byte", "write(stdout, byte(10))", {"stdout": "epipe"}),
+            ("write", "ENOSPC-stderr-big", "write(stderr2, %s)" % big, {"pre": "let stderr2 = open(\"/dev/full\", \"a\");"}),
             ("pcap_write", "ENOSPC-big", "pcap_write(pw, bigp)", {"pre": "let pw = pcap_open(\"/dev/full\", \"w\"); let bigp = pcap_read_next(pcap_open(%s));" % lit(os.path.join(work, "bigrec.pcap"))}),
             # a pipe whose reader is gone (EPIPE; SIGPIPE is ignored by the Rust runtime, so the write itself fails)
             ("write", "EPIPE-stdout-big", "write(stdout, %s)" % big, {"stdout": "epipe"}),
